@@ -239,7 +239,7 @@ theorem pipe_checkLoop_tr (env : Pipe.Env) (refent l10nent : Pipe.PEnt) : ∀ (c
     exact ⟨[], Tr.refl _, NotifyOn.nil _⟩
   | c :: cs, (obs, skips), st', h => by
     simp only [Pipe.checkLoop] at h
-    cases hp : Pos.resolveCheckPos env.l10nText .plain l10nent.entry c.pos with
+    cases hp : Pipe.resolvePos env.l10nText env.cls l10nent c.pos with
     | none => rw [hp] at h; cases h
     | some lc =>
       obtain ⟨line, col⟩ := lc
@@ -308,7 +308,7 @@ theorem pipe_step_tr (env : Pipe.Env) (ref l10n : List Pipe.PEnt) (st st' : Pipe
       rw [hr] at h
       simp only at h
       split at h
-      · cases hm : Pipe.junkMessage env.l10nText l10nent with
+      · cases hm : Pipe.junkMessage env.l10nText env.cls l10nent with
         | error e => rw [hm] at h; cases h
         | ok msg =>
           rw [hm] at h
@@ -343,7 +343,7 @@ theorem pipe_step_tr (env : Pipe.Env) (ref l10n : List Pipe.PEnt) (st st' : Pipe
         simp only at h
         split at h
         · cases h
-        · cases hck : Pipe.runChecker env.ck env.file.locale refent l10nent with
+        · cases hck : Pipe.runChecker env.ck refent l10nent with
           | error e => rw [hck] at h; cases h
           | ok results =>
             rw [hck] at h
@@ -433,8 +433,8 @@ theorem On.single {fs : List File} {ev : Ev} (h : ev.file ∈ fs) : On fs [ev] :
 
 theorem On.nil (fs : List File) : On fs [] := by intro ev h; cases h
 
-theorem runCompare_tr (l l' : ObsList) (ref l10n : File) (m : Bool) (body : CmpBody) (o : Merge.Outcome)
-    (h : runCompare l ref l10n m body = .ok (l', o)) : ∃ evs, Tr l l' evs ∧ On [ref, l10n] evs := by
+theorem runCompare_tr (ext : Pipe.Ext) (l l' : ObsList) (ref l10n : File) (m : Bool) (body : CmpBody) (o : Merge.Outcome)
+    (h : runCompare ext l ref l10n m body = .ok (l', o)) : ∃ evs, Tr l l' evs ∧ On [ref, l10n] evs := by
   cases body with
   | noParser =>
     simp only [runCompare, Except.ok.injEq, Prod.mk.injEq] at h
@@ -474,32 +474,32 @@ theorem runCompare_tr (l l' : ObsList) (ref l10n : File) (m : Bool) (body : CmpB
         exact ⟨_, t, (n.on (by simp)).append (On.single (by simp [Ev.file]))⟩
   | text fmt refText l10nText =>
     simp only [runCompare] at h
-    cases hk : Pipe.checkerOf fmt with
-    | none => rw [hk] at h; cases h
-    | some ck =>
+    cases hk : Pipe.plainFmt fmt with
+    | false => rw [hk] at h; cases h
+    | true =>
       rw [hk] at h
       simp only at h
-      cases hp1 : Pipe.parseFile fmt refText 0 with
+      cases hp1 : Pipe.parseFile ext fmt refText 0 with
       | error e => rw [hp1] at h; cases h
       | ok r1 =>
         obtain ⟨r, n1⟩ := r1
         rw [hp1] at h
         simp only at h
-        cases hp2 : Pipe.parseFile fmt l10nText n1 with
+        cases hp2 : Pipe.parseFile ext fmt l10nText n1 with
         | error e => rw [hp2] at h; cases h
         | ok r2 =>
           obtain ⟨lo, n2⟩ := r2
           rw [hp2] at h
           simp only at h
           obtain ⟨evs, s, t, n⟩ := pipe_compareParsed_tr _ r lo l l' o h
-          exact ⟨_, t, (n.on (by simp)).append (On.single (by simp [Ev.file]))⟩
+          exact ⟨_, t, (n.on (by simp [Pipe.envOf])).append (On.single (by simp [Ev.file, Pipe.envOf]))⟩
 
 theorem pushMissing_tr (l : ObsList) (f : File) (n w : Nat) :
     Tr l (pushMissing l f n w) [.stats f [(.missing, n)], .stats f [(.missing_w, w)]] :=
   (push_tr l f _).trans (push_tr _ f _)
 
-theorem runAdd_tr (l l' : ObsList) (orig missing : File) (m : Bool) (body : AddBody) (o : Merge.Outcome)
-    (h : runAdd l orig missing m body = .ok (l', o)) : ∃ evs, Tr l l' evs ∧ On [orig, missing] evs := by
+theorem runAdd_tr (ext : Pipe.Ext) (l l' : ObsList) (orig missing : File) (m : Bool) (body : AddBody) (o : Merge.Outcome)
+    (h : runAdd ext l orig missing m body = .ok (l', o)) : ∃ evs, Tr l l' evs ∧ On [orig, missing] evs := by
   simp only [runAdd] at h
   cases ht : tell l Cat.missingFile missing Data.none with
   | error e => rw [ht] at h; cases h
@@ -537,7 +537,7 @@ theorem runAdd_tr (l l' : ObsList) (orig missing : File) (m : Bool) (body : AddB
         rcases hev with rfl | rfl <;> simp [Ev.file]
       | text fmt refText =>
         simp only at h
-        cases hp : Pipe.parseFile fmt refText 0 with
+        cases hp : Pipe.parseFile ext fmt refText 0 with
         | error e => rw [hp] at h; cases h
         | ok r2 =>
           obtain ⟨ents, n2⟩ := r2
@@ -562,11 +562,11 @@ theorem runRemove_tr (l l' : ObsList) (l10n : File) (m : Bool) (o : Merge.Outcom
     exact (tell_tr ht).1
 
 /-- a job that returns is a history of events about the job's own files -/
-theorem runJob_tr (l l' : ObsList) (j : Job) (o : Merge.Outcome) (h : runJob l j = .ok (l', o)) :
+theorem runJob_tr (ext : Pipe.Ext) (l l' : ObsList) (j : Job) (o : Merge.Outcome) (h : runJob ext l j = .ok (l', o)) :
     ∃ evs, Tr l l' evs ∧ On (jobFiles j) evs := by
   cases j with
-  | compare ref l10n m body => exact runCompare_tr l l' ref l10n m body o h
-  | add orig missing m body => exact runAdd_tr l l' orig missing m body o h
+  | compare ref l10n m body => exact runCompare_tr ext l l' ref l10n m body o h
+  | add orig missing m body => exact runAdd_tr ext l l' orig missing m body o h
   | remove ref l10n m => exact ⟨_, runRemove_tr l l' l10n m o h, On.single (by simp [jobFiles, Ev.file])⟩
 
 /-! ### what a history adds to the counters of a locale -/
@@ -627,7 +627,8 @@ theorem tr_observers {l l' : ObsList} {evs : List Ev} (ht : Tr l l' evs) (hown :
 /-! ### sessions -/
 
 /-- the job sequence as one history: one block of events per job, each about that job's own files -/
-theorem run_tr : ∀ (jobs : List Job) (l l' : ObsList) (os : List Merge.Outcome), Sess.run l jobs = .ok (l', os) →
+theorem run_tr (ext : Pipe.Ext) : ∀ (jobs : List Job) (l l' : ObsList) (os : List Merge.Outcome),
+    Sess.run ext l jobs = .ok (l', os) →
     ∃ trs : List (List Ev), All₂ (fun j evs => On (jobFiles j) evs) jobs trs ∧ Tr l l' trs.flatten
   | [], l, l', os, h => by
     simp only [Sess.run, Except.ok.injEq, Prod.mk.injEq] at h
@@ -635,21 +636,21 @@ theorem run_tr : ∀ (jobs : List Job) (l l' : ObsList) (os : List Merge.Outcome
     exact ⟨[], All₂.nil, Tr.refl _⟩
   | j :: rest, l, l', os, h => by
     simp only [Sess.run] at h
-    cases hj : runJob l j with
+    cases hj : runJob ext l j with
     | error e => rw [hj] at h; cases h
     | ok r =>
       obtain ⟨l1, o⟩ := r
       rw [hj] at h
       simp only at h
-      cases hr : Sess.run l1 rest with
+      cases hr : Sess.run ext l1 rest with
       | error e => rw [hr] at h; cases h
       | ok r2 =>
         obtain ⟨l2, os2⟩ := r2
         rw [hr] at h
         simp only [Except.ok.injEq, Prod.mk.injEq] at h
         obtain ⟨rfl, _⟩ := h
-        obtain ⟨e1, t1, o1⟩ := runJob_tr l l1 j o hj
-        obtain ⟨trs, f2, t2⟩ := run_tr rest l1 l2 os2 hr
+        obtain ⟨e1, t1, o1⟩ := runJob_tr ext l l1 j o hj
+        obtain ⟨trs, f2, t2⟩ := run_tr ext rest l1 l2 os2 hr
         exact ⟨e1 :: trs, All₂.cons o1 f2, by simpa using t1.trans t2⟩
 
 /-- does the job report about a file of locale `L`? -/
